@@ -63,6 +63,12 @@ def check(ctx):
     m1.caught("SwCancel", "C15_quick.cfg")
     traces = traces_for(ctx.seed, ctx.pick(300, 5000), ctx.pick(10, 16))
     bad, ms = judge(ctx, "Mon_C15", traces, "queue_send histories", payload)
+    from .common import spec_to_code
+    tc1 = annenv.tcfg(collect=1, cyclic=4)
+    sim = spec_to_code(ctx, {"Inputs": "C15_Inputs", "Match": "<<>>", "Cfg": "[C15_Cfg1 EXCEPT !.maxId = 65535, !.timerPhase = FALSE]",
+                             "Sw": "AllOff", "MaxEv": 7, "MaxIdle": 3, "MaxPerPoll": 2},
+                       ctx.pick(25, 400), 90, lambda sched: annenv.run_schedule(sched, tc1, INSTS, ann0=INSTS, t_extra=8),
+                       "Mon_C15", {"collect": 1, "dsts": DSTS})
     groups = {}
     for tr in traces[: ctx.pick(80, 800)]:
         if max(len(e.get("es", [])) for e in tr["ev"]) <= 6:      # (long bursts make the bag comparison slow)
@@ -73,7 +79,7 @@ def check(ctx):
         acc += a
         total += t
     cov = dict(states=m1.states, transitions=m1.trans, traces_validated_against_impl=acc, monitor_traces=len(traces),
-               monitor_failures=bad, monitor_states=ms, conformance_traces=total, spec_drift=total - acc, tlc_runs=m1.runs,
+               monitor_failures=bad, monitor_states=ms, conformance_traces=total, spec_drift=total - acc, tlc_runs=m1.runs, **sim,
                entries_queued=sum(1 for t in traces for i in t["sched"] if i["op"] == "queue"), exhaustive=False,
                samples=[{"collect": traces[1]["tc"]["collect"], "schedule": traces[1]["sched"][:10], "trace": traces[1]["ev"][:16]}],
                rule="TLC: collector / queue_send / send_sd of SD.tla x Mon_C15: all schedules of 4(-5) inputs {queue to 3 "
